@@ -135,7 +135,7 @@ def stage(repo=None, need_ast=False):
     return Stage(d, repo)
 
 
-def _prune(keep, maxn=48, max_age=1800):
+def _prune(keep, maxn=300, max_age=900):
     ents = []
     for n in os.listdir(CACHE):
         p = os.path.join(CACHE, n)
